@@ -34,34 +34,34 @@ type IntJ struct {
 }
 
 type RouteJ struct {
-	Match    map[string]string `json:"match,omitempty"`
-	GroupBy  []string          `json:"group_by,omitempty"` // nil = inherit; ["..."] = all
-	Receiver string            `json:"receiver,omitempty"`
-	Continue bool              `json:"continue,omitempty"`
-	GW, GI, RI int64           `json:"-"`
+	Match      map[string]string `json:"match,omitempty"`
+	GroupBy    []string          `json:"group_by,omitempty"` // nil = inherit; ["..."] = all
+	Receiver   string            `json:"receiver,omitempty"`
+	Continue   bool              `json:"continue,omitempty"`
+	GW, GI, RI int64             `json:"-"`
 }
 
 type OpJ struct {
-	Kind   string `json:"kind"` // alert | silence | expire | nfgc
-	Dt     int64  `json:"dt"`   // virtual ns slept before the op
-	LS     int    `json:"ls"`   // alert: index into LabelSets ; silence: label set it matches exactly
+	Kind   string `json:"kind"`   // alert | silence | expire | nfgc
+	Dt     int64  `json:"dt"`     // virtual ns slept before the op
+	LS     int    `json:"ls"`     // alert: index into LabelSets ; silence: label set it matches exactly
 	Starts int64  `json:"starts"` // alert: StartsAt offset from now (<= 0)
 	Ends   int64  `json:"ends"`   // alert: EndsAt offset from now; silence: duration
 	Sil    int    `json:"sil"`    // expire: which created silence
 }
 
 type Scenario struct {
-	GW, GI, RI int64             `json:"-"`
-	GWs        string            `json:"group_wait"`
-	GIs        string            `json:"group_interval"`
-	RIs        string            `json:"repeat_interval"`
-	GroupBy    []string          `json:"group_by"`
-	Routes     []RouteJ          `json:"routes"`
-	Receivers  map[string][]IntJ `json:"receivers"`
-	Retention  int64             `json:"retention"`
+	GW, GI, RI int64               `json:"-"`
+	GWs        string              `json:"group_wait"`
+	GIs        string              `json:"group_interval"`
+	RIs        string              `json:"repeat_interval"`
+	GroupBy    []string            `json:"group_by"`
+	Routes     []RouteJ            `json:"routes"`
+	Receivers  map[string][]IntJ   `json:"receivers"`
+	Retention  int64               `json:"retention"`
 	LabelSets  []map[string]string `json:"label_sets"`
-	Ops        []OpJ             `json:"ops"`
-	Tail       int64             `json:"tail"`
+	Ops        []OpJ               `json:"ops"`
+	Tail       int64               `json:"tail"`
 }
 
 func dur(d int64) string { return model.Duration(time.Duration(d)).String() }
@@ -113,13 +113,13 @@ func quoteAll(xs []string) []string {
 var durGrid = []time.Duration{0, time.Second, 30 * time.Second, 5 * time.Minute, time.Hour}
 
 type GenOpts struct {
-	MaxOps       int
-	Faults       bool // receiver faults (recoverable / unrecoverable / hang)
-	Silences     bool
-	Routes       bool // child routes + varied group_by
-	MultiInt     bool
-	NflogGC      bool
-	Flap         bool // emphasise resolve / re-fire around flushes and slow deliveries
+	MaxOps   int
+	Faults   bool // receiver faults (recoverable / unrecoverable / hang)
+	Silences bool
+	Routes   bool // child routes + varied group_by
+	MultiInt bool
+	NflogGC  bool
+	Flap     bool // emphasise resolve / re-fire around flushes and slow deliveries
 }
 
 func Gen(r *vh.Rand, o GenOpts) Scenario {
@@ -280,18 +280,19 @@ func abs64(x int64) int64 {
 // ---------- execution ----------
 
 type Result struct {
-	Sc     *Scenario
-	Recs   []sim.Rec
-	T0     int64
-	TEnd   int64
-	GCs    []int64          // instants of nflog GC
-	Groups map[string]*GroupInfo
-	IDOf   map[string]int   // label set (canonical string) -> id (1-based, order of the scenario's label sets)
-	Hash   map[uint64]int   // hashAlert -> id
-	Wait   int64
-	member map[int][]string
+	Sc       *Scenario
+	Recs     []sim.Rec
+	T0       int64
+	TEnd     int64
+	GCs      []int64 // instants of nflog GC
+	Groups   map[string]*GroupInfo
+	IDOf     map[string]int // label set (canonical string) -> id (1-based, order of the scenario's label sets)
+	Hash     map[uint64]int // hashAlert -> id
+	Wait     int64
+	member   map[int][]string
 	Instance int
-	Dumps  []GroupsDump // GET /alerts/groups content (Dispatcher.Groups) after every operation
+	Findings []vh.Violation // found by the runner itself (cluster: delivered entries not merged)
+	Dumps    []GroupsDump   // GET /alerts/groups content (Dispatcher.Groups) after every operation
 }
 
 // GroupsDump is what Dispatcher.Groups returned at one instant, plus the provider's unresolved alerts then.
@@ -313,10 +314,10 @@ type GroupView struct {
 }
 
 type GroupInfo struct {
-	Key      string
-	Receiver string
+	Key                 string
+	Receiver            string
 	GW, GI, RI, Timeout int64
-	Ints     []IntJ
+	Ints                []IntJ
 }
 
 func lsKey(ls model.LabelSet) string { return ls.String() }
@@ -509,7 +510,7 @@ func (res *Result) Case(gkey string) (string, map[string]int) {
 	g := res.Groups[gkey]
 	stats := map[string]int{}
 	var evs []evt
-	lastFor := map[int]int{}    // integration -> index in evs of the event a following "log" record belongs to
+	lastFor := map[int]int{} // integration -> index in evs of the event a following "log" record belongs to
 	inFlight := false
 	pendingRec := map[int]bool{} // integration -> last attempt was recoverable (needs ECtxDone at flush end)
 	gci := 0
@@ -646,7 +647,6 @@ func (sc *Scenario) Fix() {
 		sc.GW, sc.GI, sc.RI = p(sc.GWs), p(sc.GIs), p(sc.RIs)
 	}
 }
-
 
 // ---------- direct oracles on the implementation's observations (independent of the Coq model) ----------
 
@@ -1062,7 +1062,6 @@ func Monitor(res *Result, which string) []vh.Violation {
 
 // MonitorC04 is kept for the C04 harness.
 func MonitorC04(res *Result) []vh.Violation { return Monitor(res, "C04") }
-
 
 // Dump renders the flush table of a run (debugging aid for replays).
 func (res *Result) Dump() string {
